@@ -7,7 +7,7 @@ Line protocol (one history per line, fields separated by `|`):
 
 * level 1: `1|t0 u g a c|op|op|…`, ops `S` `C` `R` `D n` `L n` `B n` `U u g` `A a` `F v`
   and `Y id` (`sync_tx(id)`), answer `obs|ret obs|ret obs|…`
-* level 2: `2 p|u g a c|ev|…` (`p` = pickle transport, `r` = reuse), events `<op> <cf><bf>` with ops
+* level 2: `2 p|u g a c|ev|…` (`p` = pickled state travels, `r` = one worker / marker, `b` = pre-fix pool), events `<op> <cf><bf>` with ops
   `S C R D n L n B n U u g A a F v Q`, answer one record per event.
 -/
 
@@ -139,21 +139,26 @@ def showSOut (o : SOut) : String :=
   let un := match o.unit with | none => "-" | some u => showUnit u
   s!"{showOutcome o.outcome} @{ag} <{un}>"
 
+/-- transports: `p` every call is served by a worker that does not hold the state (pickled
+    bytes travel), `r` one worker, the pool as it is (marker after a successful call), `b` one
+    worker, the pool before the fix (marker also after a failed call) -/
 def level2 (mode : String) (hdr : String) (evs : List String) : String :=
-  let tr? : Option Transport := match mode with | "p" => some .pickle | "r" => some .reuse | _ => none
-  match tr?, parsePl hdr with
-  | some tr, some pl =>
+  let ver? : Option PoolVer := match mode with
+    | "p" => some .fixed | "r" => some .fixed | "b" => some .buggy | _ => none
+  match ver?, parsePl hdr with
+  | some ver, some pl =>
     let evs' := evs.filterMap parseSEv
     if evs'.length != evs.length then "bad-op" else
-    let (_, outs) := evs'.foldl (fun (acc : Server × List String) e =>
-        let r : Option (Server × SOut) := match e with
-          | .one e => some (acc.1.step tr e)
-          | .script ss => acc.1.stepScript tr ss
+    let (_, outs) := evs'.foldl (fun (acc : Sys × List String) e =>
+        let r : Option (Sys × SOut) := match e with
+          | .one e => some (acc.1.step ver e)
+          | .script ss => acc.1.stepScript ver ss
         match r with
         | none => (acc.1, "unmodelled" :: acc.2)
-        | some (s', o) =>
-        let cs := match s'.last with | some c => (if s'.inTx then obs c else "-") | none => "-"
-        (s', s!"{showSOut o} {showSrv s'} ~ {cs}" :: acc.2)) (Server.init pl, [])
+        | some (y0, o) =>
+        let y' : Sys := if mode == "p" then { y0 with wtok := none } else y0
+        let cs := match y'.cin with | some c => (if y'.srv.inTx then obs c else "-") | none => "-"
+        (y', s!"{showSOut o} {showSrv y'.srv} ~ {cs}" :: acc.2)) (Sys.init pl, [])
     "|".intercalate outs.reverse
   | _, _ => "bad-op"
 
@@ -162,6 +167,7 @@ def handle (line : String) : String :=
   | "1" :: hdr :: ops => level1 hdr ops
   | "2 p" :: hdr :: evs => level2 "p" hdr evs
   | "2 r" :: hdr :: evs => level2 "r" hdr evs
+  | "2 b" :: hdr :: evs => level2 "b" hdr evs
   | _ => "bad-op"
 
 def main : IO Unit := runStateless handle
